@@ -79,6 +79,50 @@ var registry = []Harness{
 		Bound: "two audit results put by two Inner Ring members: well-formed V2 header (version length 0), epoch = two symbolic low bytes (classes given by params: 0 / 1..127 / 128..32767 / 32768..65535), symbolic 32-byte container ids; list, get, listByEpoch/CID/Node with symbolic query epoch"},
 	{Prop: "C20", Pkg: "neofsid", Func: "VerifC20NeoFSID", Link: []string{"neofsid"},
 		Bound: "addKey(o1,[k1,k2]) addKey(o2,[k3]) removeKey(o3,[k4]) with symbolic 25-byte owners and 33-byte keys free to coincide; key(oq) for symbolic oq"},
+	{Prop: "C18", Unwind: 300, Pkg: "nns", Func: "VerifC18IPv4Shape", Link: []string{"nns"},
+		Quick:    [][]int{{1, 1, 1, 1}, {2, 1, 1, 1}, {3, 3, 3, 3}, {3, 1, 1, 3}, {1, 2, 3, 1}, {3, 2, 1, 2}, {1, 1, 1, 2}, {4, 1, 1, 1}, {0, 1, 1, 1}, {1, 1, 1, 0}},
+		Thorough: ipv4Shapes(),
+		Bound:    "A record data = four dot-free groups of the lengths given by the params (quick: 10 shapes, thorough: all 81 shapes with group lengths 1..3 plus 5 malformed ones), every byte fully symbolic; through nns.addRecord by the owner of a registered name"},
+	{Prop: "C18", Unwind: 300, Pkg: "nns", Func: "VerifC18IPv4Free", Link: []string{"nns"},
+		Quick: [][]int{{6}, {7}}, Thorough: [][]int{{6}, {7}, {8}, {9}, {16}},
+		Bound: "A record data = every string of the length given by the param (all bytes symbolic, dots anywhere)"},
+	{Prop: "C18", Unwind: 300, Pkg: "nns", Func: "VerifC18IPv6Shape", Link: []string{"nns"},
+		Quick:    [][]int{{1, 4, 3, 9, 1, 0}, {1, 4, 4, 9, 1, 0}, {1, 4, 9, 1, 0}, {1, 4, 9, 0}, {0, 9, 1, 0}, {1, 4, 1, 1, 1, 1, 1, 1, 1, 0}, {1, 4, 4, 4, 4, 4, 4, 4, 4, 0}, {0, 4, 1, 1, 0}, {0, 4, 5, 9, 1, 0}, {1, 4, 2, 9, 2, 1, 0}},
+		Thorough: [][]int{{1, 4, 3, 9, 1, 0}, {1, 4, 4, 9, 1, 0}, {1, 4, 9, 1, 0}, {1, 4, 9, 0}, {0, 9, 1, 0}, {1, 4, 1, 1, 1, 1, 1, 1, 1, 0}, {1, 4, 4, 4, 4, 4, 4, 4, 4, 0}, {0, 4, 1, 1, 0}, {0, 4, 5, 9, 1, 0}, {1, 4, 2, 9, 2, 1, 0}, {1, 4, 1, 9, 0}, {1, 4, 2, 9, 0}, {1, 4, 3, 9, 0}, {1, 4, 4, 9, 0}, {0, 3, 4, 9, 1, 0}, {1, 4, 1, 1, 1, 1, 1, 1, 9, 0}, {0, 4, 1, 1, 1, 1, 1, 1, 1, 1}, {0, 4, 1, 1, 1, 1, 1, 1, 9, 1}, {0, 4, 9, 1, 9, 1}, {1, 4, 3, 3, 9, 4, 0}},
+		Bound:    "AAAA record data = colon-free groups of the lengths given by the params (9 = the '::' gap), every byte fully symbolic"},
+	{Prop: "C18", Unwind: 300, Pkg: "nns", Func: "VerifC18IPv6Free", Link: []string{"nns"},
+		Quick: [][]int{{1}, {5}, {6}}, Thorough: [][]int{{1}, {2}, {5}, {6}, {7}, {8}, {40}},
+		Bound: "AAAA record data = every string of the length given by the param (all bytes symbolic)"},
+	{Prop: "C18", Unwind: 300, Pkg: "nns", Func: "VerifC18TXT", Link: []string{"nns"},
+		Quick: [][]int{{0}, {1}, {255}, {256}},
+		Bound: "TXT data of lengths 0, 1, 255, 256, all bytes symbolic"},
+	{Prop: "C18", Unwind: 300, Pkg: "nns", Func: "VerifC18CNAMEShape", Link: []string{"nns"},
+		Quick: [][]int{{1, 1, 3, 0}, {1, 2, 2, 3, 0}, {1, 63, 3, 0}, {0, 64, 3, 0}, {1, 1, 16, 0}, {0, 1, 17, 0}, {1, 1, 1, 0}, {0, 2, 0}, {1, 3, 0}, {0, 99, 3, 0}},
+		Bound: "CNAME data = dot-free labels of the lengths given by the params (99 = empty label), every byte symbolic"},
+	{Prop: "C18", Unwind: 300, Pkg: "nns", Func: "VerifC18NameFree", Link: []string{"nns"},
+		Quick: [][]int{{1}, {3}, {5}}, Thorough: [][]int{{1}, {2}, {3}, {4}, {5}, {6}, {7}, {8}},
+		Bound: "isAvailable(s+'.com') for every string s of the length given by the param (all bytes symbolic, dots anywhere)"},
+	{Prop: "C18", Unwind: 300, Pkg: "nns", Func: "VerifC18NameShape", Link: []string{"nns"},
+		Quick:    [][]int{{1, 1, 0}, {1, 2, 0}, {1, 63, 0}, {0, 64, 0}, {1, 3, 2, 0}, {0, 99, 0}, {0, 1, 99, 1, 0}},
+		Thorough: [][]int{{1, 1, 0}, {1, 2, 0}, {1, 16, 0}, {1, 17, 0}, {1, 63, 0}, {0, 64, 0}, {1, 3, 2, 0}, {0, 99, 0}, {0, 1, 99, 1, 0}, {1, 63, 63, 63, 58, 0}, {1, 63, 63, 63, 59, 0}, {0, 63, 63, 63, 60, 0}},
+		Bound:    "isAvailable and (single label) register of labels of the lengths given by the params + '.com', every byte symbolic; totals 255/256 in the thorough tier"},
+	{Prop: "C18", Unwind: 300, Pkg: "nns", Func: "VerifC18TLD", Link: []string{"nns"},
+		Quick: [][]int{{1}, {2}, {3}, {4}, {16}, {17}},
+		Bound: "isAvailable(s) and registerTLD(s) by the committee for every dot-free string s of the length given by the param, on an NNS without TLDs"},
+}
+
+func ipv4Shapes() [][]int {
+	var out [][]int
+	for a := 1; a <= 3; a++ {
+		for b := 1; b <= 3; b++ {
+			for c := 1; c <= 3; c++ {
+				for d := 1; d <= 3; d++ {
+					out = append(out, []int{a, b, c, d})
+				}
+			}
+		}
+	}
+	return append(out, []int{4, 1, 1, 1}, []int{1, 1, 1, 4}, []int{0, 1, 1, 1}, []int{1, 0, 1, 1}, []int{1, 1, 1, 0})
 }
 
 func allTriples(n int) [][]int {
